@@ -56,6 +56,8 @@ pub mod http;
 pub mod responses;
 pub mod server;
 pub mod tcp;
+#[cfg(feature = "verif-hooks")]
+pub mod verif_hooks;
 
 // Re-exports for public API
 pub use config::{CdnConfig, ServerConfig};
